@@ -881,6 +881,20 @@ func (p *NewForm) typecheckForm(gammaNameTypesCtx NamesTypesCtx, providerShadowN
 			functionSignatureType := types.CopyType(functionSignature.Type)
 			functionSignatureType = types.Unfold(functionSignatureType, labelledTypesEnv)
 
+			if p.new_name_c.Type != nil {
+				// The type of the new name is optional here (it is the one the function provides),
+				// but when it is given it has to be well formed and agree with it
+				types.AddMissingModalities(&p.new_name_c.Type, labelledTypesEnv)
+
+				if err := checkNameType(p.new_name_c, labelledTypesEnv); err != nil {
+					return TypeErrorf("invalid type for %s in %s: %s", p.new_name_c.String(), p.StringShort(), err)
+				}
+
+				if !types.EqualType(p.new_name_c.Type, functionSignatureType, labelledTypesEnv) {
+					return TypeErrorf("type of '%s' is '%s', but function '%s' provides '%s'", p.new_name_c.String(), p.new_name_c.Type.String(), callForm.functionName, functionSignatureType.String())
+				}
+			}
+
 			// Check for declaration of independence: (Γ ⪰ m)
 			// Γ (gammaLeftNameTypesCtx) ⪰ m (type of p.continuation_c)
 			err := declationOfIndependence(gammaLeftNameTypesCtx.getNames(), functionSignatureType)
